@@ -24,6 +24,16 @@ pub fn sink_write(w: &mut Sink, fmt: &'static str) -> (r: core::result::Result<(
         r is Err ==> final(w).failed@ && final(w).log@ == old(w).log@,
 { unimplemented!() }
 
+/// a private in-memory buffer (`Vec::new()` used as a sink by capture / ifchanged): it never fails
+pub struct BufString { pub log: Ghost<Seq<Ev>> }
+pub uninterp spec fn buf_chars(log: Seq<Ev>) -> Seq<char>;
+impl Sink {
+    #[verifier::external_body]
+    pub fn buffer() -> (r: Sink) ensures !r.failed@, r.log@ == Seq::<Ev>::empty() { unimplemented!() }
+    /// `String::from_utf8(buffer).expect(..)`: the text that was rendered into the buffer
+    #[verifier::external_body]
+    pub fn into_string(self) -> (r: BufString) ensures r.log@ == self.log@ { unimplemented!() }
+}
 /// the io::Write methods themselves, for code that bypasses `write!`
 impl Sink {
     #[verifier::external_body]
